@@ -56,9 +56,19 @@ func genAltCase(e *Env) *jAltCase {
 		case k == 2 || k == 3:
 			// new definition: drop some fields, add fresh ones, permute; sometimes a new WHERE
 			var nf []jField
+			redefined := false
 			for _, f := range cur {
 				if r.Intn(4) > 0 {
+					if r.Intn(5) == 0 {
+						// the name stays (and mostly the position), the expression changes: a removal plus an addition
+						f = jField{Name: f.Name, E: g.gen(r.Intn(3), false)}
+						redefined = true
+					}
 					nf = append(nf, f)
+				} else if r.Intn(2) == 0 {
+					// its place is taken by a new definition of the same name
+					nf = append(nf, jField{Name: f.Name, E: g.gen(r.Intn(3), false)})
+					redefined = true
 				}
 			}
 			var nowDropped []jField
@@ -93,7 +103,9 @@ func genAltCase(e *Env) *jAltCase {
 				nf = append(nf, jField{Name: fmt.Sprintf("f%d", next), E: g.gen(r.Intn(3), false)})
 				next++
 			}
-			r.Shuffle(len(nf), func(a, b int) { nf[a], nf[b] = nf[b], nf[a] })
+			if !redefined || r.Intn(3) == 0 {
+				r.Shuffle(len(nf), func(a, b int) { nf[a], nf[b] = nf[b], nf[a] })
+			}
 			tmp := jTable{Fields: nf}
 			if stringCollision(&tmp) {
 				continue
